@@ -2,6 +2,7 @@
    calls the harness observed on the implementation and returns the indexes that disagree.
    Depends on model files only. *)
 From GL Require Import Base.Bytes Base.Varint Base.Cursor Codec.Block Codec.Table Codec.TableCheck Codec.TblCrc Codec.Snappy Gen.InstTbl Corr.Cmps.
+From GL Require Export Base.UBuffer.
 From Coq Require Import String.
 
 Definition hpair := (string * string)%type.
@@ -112,6 +113,110 @@ Definition run_query (c : comparer) (rd : treader) (fuel : nat) (q : tquery) : b
       end
   end.
 
+(* ---- util.Buffer / BufferPool / BytesPrefix (Base/UBuffer.v) ---- *)
+Inductive krd := KRd (d : string) (e : N) | KRdNeg.
+Inductive kuop :=
+| UBytes | UString | ULen | UTruncate (n : Z) | UReset | UAlloc (n : Z) | UGrow (n : Z)
+| UWrite (p : string) | UWriteByte (c : N)
+| UReadFrom (sc : list krd) (zeros_for_ever : bool)
+| UWriteTo (m : N) (e : N) | URead (k : N) | UNext (n : Z) | UReadByte | UReadBytes (delim : N)
+| UVWrite (step : nat) (pos : N) (d : string)     (* copy(s[pos:], d) through the slice call number [step] returned *)
+| UVRead (step : nat).
+(* observed results; error codes: 0 nil, 1 io.EOF, 2 io.ErrShortWrite, others: the harness' own errors.  The start of a
+   returned slice (offset of its first cell in the current array) is observed only when the slice is not empty *)
+Inductive kures :=
+| XUnit | XNum (n : N) | XData (d : string) | XView (lo : option N) (n : N) (d : string)
+| XNErr (n e : N) (d : string) | XByte (c e : N) | XPanic (code : N) | XDiverge.
+(* b.off, len(b.buf), cap(b.buf), b.buf == nil, backing array changed by this call *)
+Definition kust := (N * N * N * bool * bool)%type.
+
+Definition uerr_of (c : N) : uerr :=
+  if c =? 0 then UNil else if c =? 1 then UEOF else if c =? 2 then UShortWrite else UOther c.
+Definition uerr_code (e : uerr) : N :=
+  match e with UNil => 0 | UEOF => 1 | UShortWrite => 2 | UOther c => c end.
+Definition krd_of (x : krd) : rd := match x with KRd d e => Rd (unhex d) (uerr_of e) | KRdNeg => RdNeg end.
+
+Definition view_of_step (rs : list ures) (k : nat) : view :=
+  match nth k rs RUnit with RView v _ => v | _ => (0%nat, 0, 0) end.
+
+Definition uop_of (rs : list ures) (o : kuop) : uop :=
+  match o with
+  | UBytes => OBytes | UString => OString | ULen => OLen | UTruncate n => OTruncate n | UReset => OReset
+  | UAlloc n => OAlloc n | UGrow n => OGrow n | UWrite p => OWrite (unhex p) | UWriteByte c => OWriteByte c
+  | UReadFrom sc z => OReadFrom (map krd_of sc) (if z then TZeros else TEof)
+  | UWriteTo m e => OWriteTo m (uerr_of e) | URead k => ORead k | UNext n => ONext n | UReadByte => OReadByte
+  | UReadBytes d => OReadBytes d
+  | UVWrite k pos d => OVWrite (view_of_step rs k) pos (unhex d)
+  | UVRead k => OVRead (view_of_step rs k)
+  end.
+
+Definition ures_eqb (r : ures) (x : kures) : bool :=
+  match r, x with
+  | RUnit, XUnit => true
+  | RNum n, XNum n' => n =? n'
+  | RData d, XData d' => beq d (unhex d')
+  | RView (_, lo, n) d, XView lo' n' d' =>
+      (n =? n') && beq d (unhex d') && match lo' with Some l => lo =? l | None => true end
+  | RNErr n e d, XNErr n' e' d' => (n =? n') && (uerr_code e =? e') && beq d (unhex d')
+  | RByte c e, XByte c' e' => (c =? c') && (uerr_code e =? e')
+  | RPanic p, XPanic c => upanic_code p =? c
+  | RDiverge, XDiverge => true
+  | _, _ => false
+  end.
+
+(* make([]byte, n) panics above 2^48 on linux/amd64; the harness asks only for sizes below 2^21 or above 2^50 *)
+Definition k_mx : N := 281474976710656.
+
+Definition ust_eqb (s0 s : ubuf) (x : kust) : bool :=
+  let '(off, len, cp, nl, changed) := x in
+  (u_off s =? off) && (u_len s =? len) && (u_cap s =? cp) && Bool.eqb (u_nil s) nl
+  (* from a nil b.buf the first array is not "another array"; ReadFrom may go on to replace it in the same call,
+     which the harness cannot tell from the first allocation *)
+  && (u_nil s0 || Bool.eqb (negb (Nat.eqb (u_aid s0) (u_aid s))) changed).
+
+Fixpoint ku_run (s : ubuf) (rs : list ures) (steps : list (kuop * kures * kust)) : option ubuf :=
+  match steps with
+  | [] => Some s
+  | (o, x, st) :: steps' =>
+      let '(s1, r) := u_step k_mx s (uop_of rs o) in
+      if ures_eqb r x && ust_eqb s s1 st then ku_run s1 (rs ++ [r]) steps' else None
+  end.
+
+Inductive kpstep :=
+| PGet (n : N) (pick : option nat) (fresh : nat) (id : nat) (len cap : N) (reused : bool)
+| PPut (id : nat) (cap : N).
+
+Fixpoint kp_run (p : bpool) (steps : list kpstep) : bool :=
+  match steps with
+  | [] => true
+  | PGet n pick fresh id len cp reused :: steps' =>
+      let '(p1, g) := bp_get p n pick fresh in
+      Nat.eqb (pg_id g) id && (pg_len g =? len) && (pg_cap g =? cp) && Bool.eqb (pg_reused g) reused
+      && kp_run p1 steps'
+  | PPut id cp :: steps' => kp_run (bp_put p (id, cp)) steps'
+  end.
+
+Definition rl_res_eqb (a b : rl_res) : bool :=
+  match a, b with
+  | RLUnit x, RLUnit y => Bool.eqb x y
+  | RLBool x, RLBool y => Bool.eqb x y
+  | RLPanicReleased, RLPanicReleased | RLPanicHas, RLPanicHas => true
+  | _, _ => false
+  end.
+
+Fixpoint krl_run (r : releaser) (steps : list (rl_op * rl_res)) : bool :=
+  match steps with
+  | [] => true
+  | (o, x) :: steps' => let '(r1, y) := rl_step r o in rl_res_eqb y x && krl_run r1 steps'
+  end.
+
+Definition opt_beq (a : option bytes) (b : option string) : bool :=
+  match a, b with
+  | None, None => true
+  | Some x, Some y => beq x (unhex y)
+  | _, _ => false
+  end.
+
 Inductive c13case :=
 (* blockWriter: VerifBlockBuild(ri, kvs) returned [data]; [blen] = bytesLen() before finish *)
 | KBuild (ri : N) (kvs : list hpair) (data : string) (blen : N)
@@ -131,7 +236,19 @@ Inductive c13case :=
    for altered comp that snappy.Decode still accepts (raw = what it returned) *)
 | KSnappy (comp raw : string)
 (* snappy.Decode(nil, comp) failed *)
-| KSnappyErr (comp : string).
+| KSnappyErr (comp : string)
+(* util.Buffer (Base/UBuffer.v): the real buffer, created as the zero value or by NewBuffer over an array with the given
+   contents and length, driven by the calls; after every call: what it returned and (b.off, len(b.buf), cap(b.buf),
+   b.buf == nil, whether the backing array changed); at the end the whole backing array *)
+| KUBuf (init : option (string * N)) (steps : list (kuop * kures * kust)) (arr : string)
+(* BytesPrefix(p): the Limit returned (None: nil) and, per probe key, whether Start <= key < Limit under bytes.Compare *)
+| KUPrefix (p : string) (limit : option string) (probes : list (string * bool))
+(* util.BufferPool: NewBufferPool(baseline) driven by Get / Put; array identities are the harness' numbering *)
+| KUPool (baseline : N) (steps : list kpstep)
+(* poolNum probes *)
+| KUPoolNum (baseline : N) (probes : list (N * nat))
+(* util.BasicReleaser: calls and what they did (Release: whether the attached releaser ran) *)
+| KURel (steps : list (rl_op * rl_res)).
 
 Fixpoint bi_run_final (c : comparer) (it : biter) (ops : list cop) : list (option (bytes * bytes)) * biter :=
   match ops with
@@ -173,6 +290,20 @@ Definition run_case (cs : c13case) : bool :=
       match snappy_decode (unhex comp) with Some d => beq d (unhex raw) | None => false end
   | KSnappyErr comp =>
       match snappy_decode (unhex comp) with Some _ => false | None => true end
+  | KUBuf init steps arr =>
+      let s0 := match init with None => u_zero | Some (a, l) => u_new (unhex a) l end in
+      match ku_run s0 [] steps with
+      | Some s => beq (u_arr s) (unhex arr)
+      | None => false
+      end
+  | KUPrefix p limit probes =>
+      let r := bytes_prefix (unhex p) in
+      beq (fst r) (unhex p) && opt_beq (snd r) limit
+      && forallb (fun q => Bool.eqb (in_range r (unhex (fst q))) (snd q)) probes
+  | KUPool b steps => kp_run (bp_new b) steps
+  | KUPoolNum b probes =>
+      forallb (fun q => Nat.eqb (pool_num (bp_base (bp_new b)) (fst q)) (snd q)) probes
+  | KURel steps => krl_run (RL false false) steps
   end.
 
 (* soft statistic: model writer output = implementation file *)
